@@ -342,6 +342,7 @@ OPERANDS = [
     # every kind of element behind / in front of every other kind in argument-like sequences
     ('_arglikes', 'a, *b, c'), ('_arglikes', 'a, *b, c, d=1'), ('_arglikes', '*b, c'), ('_arglikes', 'a, *b, c, **d'), ('_arglikes', 'a=1, *b, c'), ('_arglikes', '*a, *b'), ('_arglikes', '**a, b=1'),
     ('arguments', 'a, *b, c, d=1'), ('arguments', 'a, /, *, c'), ('arguments', '*, c, d=1, e'), ('_type_params', 'T: int, U'), ('_type_params', 'T = int, *U'), ('type_param', 'T: (int, str)'),
+    ('pattern', '{**\ufb01}'), ('pattern', '{1: a, **\ufb01}'), ('pattern', '[{**\ufb01} | b]'), ('pattern', 'C(\ufb01=1)'), ('pattern', 'x as \ufb01'),
     ('expr', 'yield'), ('stmt', 'yield x'), ('expr', 'yield from z'), ('expr', 'await x'), ('stmt', 'await x'),
     ('_withitems', 'a, b as c, d'), ('_aliases', 'a, b as c, d'), ('_decorator_list', '@a(b)(c)\n@d'), ('_comprehensions', 'for a, b in c if d if e for f in g if h'),
 ]
